@@ -61,6 +61,10 @@ pub fn check_info(bl: &[Block], addr: u32) -> Check {
     if info.registration != reg {
         return Err(Failure::new("c14:info-registration-differs", format!("{:?} vs tail {:?}", info.registration, reg), rep));
     }
+    // a registration comes with the country the table assigns to the address (the first block containing it)
+    if reg.is_some() && info.country.is_none() && bl.iter().any(|b| addr >= b.start && addr <= b.end) {
+        return Err(Failure::new("c14:info-country-missing", format!("{addr:06x}: registration {reg:?} reported without a country although the address-block table has a block for the address"), rep));
+    }
     if let Some(c) = &info.country {
         // the country must be that of a block containing the address, or a category override of such a block
         let ok = bl.iter().filter(|b| addr >= b.start && addr <= b.end).any(|b| &b.country == c || b.cat_patterns.iter().any(|(_, cc)| cc.as_ref() == Some(c)));
@@ -72,7 +76,7 @@ pub fn check_info(bl: &[Block], addr: u32) -> Check {
 }
 
 pub fn run(ctx: &Ctx) {
-    ctx.set_rule("all 16,777,216 addresses through tail() (rayon; smallest failing address reported), 2^20 out-of-range 32-bit values for totality, aircraft_information on a stride sample. Oracle: no panic; registrations collected in a HashMap<registration, address> show no collision; for each registration the address-block table (patterns.json parsed independently) has a block containing the address whose own pattern (or a category pattern) matches the registration. Non-trivial = address that has a registration; distinct addresses counted.");
+    ctx.set_rule("all 16,777,216 addresses through tail() (rayon; smallest failing address reported), 2^20 out-of-range 32-bit values for totality, aircraft_information on a stride sample, at both ends of every address block and on the addresses that have a registration (quick: 1 in 64, thorough: all). Oracle: no panic; registrations collected in a HashMap<registration, address> show no collision; for each registration the address-block table (patterns.json parsed independently) has a block containing the address whose own pattern (or a category pattern) matches the registration. Non-trivial = address that has a registration; distinct addresses counted.");
     ctx.assume("patterns.json is the address-block table the property refers to; it is parsed independently of the crate's own loader");
     let bl = blocks();
     ctx.set_extra("address_blocks", json!(bl.len()));
@@ -141,10 +145,28 @@ pub fn run(ctx: &Ctx) {
             ctx.judge(Err(Failure::new("c14:panic-out-of-range", format!("tail({v:#x}) panicked: {p}"), json!({"kind": "addr", "addr": v}))));
         }
     }
-    // aircraft_information on a stride sample
+    // aircraft_information: a stride sample, both ends of every address block (+-1), and a share of the addresses
+    // that have a registration (thorough: all of them)
     let stride = ctx.tier.pick(4099u32, 257u32);
-    let infos: Vec<Failure> = (0..(1u32 << 24) / stride).into_par_iter().filter_map(|k| check_info(&bl, k * stride + (k % 7)).err()).collect();
-    ctx.evals(((1u32 << 24) / stride) as u64);
+    let mut addrs: Vec<u32> = (0..(1u32 << 24) / stride).map(|k| k * stride + (k % 7)).collect();
+    for b in &bl {
+        for a in [b.start.wrapping_sub(1), b.start, b.start + 1, b.end.wrapping_sub(1), b.end, b.end + 1] {
+            if a < (1 << 24) {
+                addrs.push(a);
+            }
+        }
+    }
+    ctx.class_n("aircraft_information at address-block edges", (bl.len() * 6) as u64);
+    let share = ctx.tier.pick(64u32, 1u32);
+    let with_reg: Vec<u32> = map.values().copied().filter(|a| a % share == 0).collect();
+    ctx.class_n("aircraft_information on addresses that have a registration", with_reg.len() as u64);
+    addrs.extend(with_reg);
+    addrs.sort();
+    addrs.dedup();
+    let mut infos: Vec<(u32, Failure)> = addrs.par_iter().filter_map(|a| check_info(&bl, *a).err().map(|f| (*a, f))).collect();
+    infos.sort_by_key(|x| x.0);
+    let infos: Vec<Failure> = infos.into_iter().map(|x| x.1).collect();
+    ctx.evals(addrs.len() as u64);
     ctx.class_n("aircraft_information stride sample", ((1u32 << 24) / stride) as u64);
     let mut seen = std::collections::BTreeSet::new();
     for f in infos {
